@@ -78,14 +78,14 @@ func (env *hostileEnv) watchReplicated() (stop func(), err error) {
 }
 
 type hostileOpts struct {
-	Type          string
-	Authors       int
-	VictimWrites  bool  // victim is in the write list
-	WriteList     []int // nil: authors (+victim); explicit peer indices otherwise; -1 = "*"
-	DefaultAC     bool  // no access-controller options at creation: creator only
-	ACType        string // "" (ipfs) | "simple"
-	PriorLegit    bool  // (with SharedOpts) the attacker first writes a legitimate entry to the wildcard sibling and the victim replicates it
-	SharedOpts    bool  // the victim first opens a sibling database with the wildcard list, then this one, with the same options value
+	Type         string
+	Authors      int
+	VictimWrites bool   // victim is in the write list
+	WriteList    []int  // nil: authors (+victim); explicit peer indices otherwise; -1 = "*"
+	DefaultAC    bool   // no access-controller options at creation: creator only
+	ACType       string // "" (ipfs) | "simple"
+	PriorLegit   bool   // (with SharedOpts) the attacker first writes a legitimate entry to the wildcard sibling and the victim replicates it
+	SharedOpts   bool   // the victim first opens a sibling database with the wildcard list, then this one, with the same options value
 }
 
 func newHostileEnv(ctx context.Context, o hostileOpts) (*hostileEnv, error) {
